@@ -45,6 +45,7 @@ enum Behav {
 	B_PUB_SHIFTED_NO_AGG, // ext: the genuine chain's links and input, no aggregation-time element, and another publication time (stands for another second)
 	B_METADATA_IMPRINT_LIKE, // aggr: one link carries an unpadded metadata record of 33 octets that starts with 0x01 (could be read as a SHA-256 imprint)
 	B_LONG_IMPRINT,       // aggr: one sibling imprint is eight octets longer than its algorithm's digest (the chain is folded over those bytes, so everything else is consistent)
+	B_LEGACY_ID_UNTERMINATED, // aggr: a legacy-id link whose octet right after the declared name is not zero
 	B__COUNT
 };
 const char *behav_name(int b);
